@@ -105,6 +105,100 @@ func CloneModuleForOverrides(src *Module) *Module {
 	return &dst
 }
 
+// CloneModuleDeep returns a copy of the module that shares no mutable state with
+// src: in addition to what CloneModuleForOverrides copies, statement blocks are
+// copied recursively (nested blocks, call argument slices, optional handles) and
+// the Types and GlobalVariables arenas get their own backing arrays. Passes that
+// rewrite statements in place or append to the arenas (inlining, SROA, mem2reg,
+// DCE, synthetic bindings) can run on the result without altering, or racing
+// with readers of, the caller's module.
+func CloneModuleDeep(src *Module) *Module {
+	dst := CloneModuleForOverrides(src)
+	dst.Types = append([]Type(nil), src.Types...)
+	dst.GlobalVariables = append([]GlobalVariable(nil), src.GlobalVariables...)
+	for i := range dst.Functions {
+		dst.Functions[i].Body = cloneBlock(src.Functions[i].Body)
+	}
+	for i := range dst.EntryPoints {
+		dst.EntryPoints[i].Function.Body = cloneBlock(src.EntryPoints[i].Function.Body)
+	}
+	return dst
+}
+
+// cloneHandlePtr copies an optional expression handle.
+func cloneHandlePtr(p *ExpressionHandle) *ExpressionHandle {
+	if p == nil {
+		return nil
+	}
+	cp := *p
+	return &cp
+}
+
+// cloneBlock deep-copies a statement block.
+func cloneBlock(src Block) Block {
+	if src == nil {
+		return nil
+	}
+	dst := make(Block, len(src))
+	for i, stmt := range src {
+		switch k := stmt.Kind.(type) {
+		case StmtBlock:
+			k.Block = cloneBlock(k.Block)
+			stmt.Kind = k
+		case StmtIf:
+			k.Accept = cloneBlock(k.Accept)
+			k.Reject = cloneBlock(k.Reject)
+			stmt.Kind = k
+		case StmtSwitch:
+			cases := make([]SwitchCase, len(k.Cases))
+			copy(cases, k.Cases)
+			for j := range cases {
+				cases[j].Body = cloneBlock(cases[j].Body)
+			}
+			k.Cases = cases
+			stmt.Kind = k
+		case StmtLoop:
+			k.Body = cloneBlock(k.Body)
+			k.Continuing = cloneBlock(k.Continuing)
+			k.BreakIf = cloneHandlePtr(k.BreakIf)
+			stmt.Kind = k
+		case StmtReturn:
+			k.Value = cloneHandlePtr(k.Value)
+			stmt.Kind = k
+		case StmtCall:
+			if k.Arguments != nil {
+				args := make([]ExpressionHandle, len(k.Arguments))
+				copy(args, k.Arguments)
+				k.Arguments = args
+			}
+			k.Result = cloneHandlePtr(k.Result)
+			stmt.Kind = k
+		case StmtImageStore:
+			k.ArrayIndex = cloneHandlePtr(k.ArrayIndex)
+			stmt.Kind = k
+		case StmtImageAtomic:
+			k.ArrayIndex = cloneHandlePtr(k.ArrayIndex)
+			if exchange, ok := k.Fun.(AtomicExchange); ok {
+				exchange.Compare = cloneHandlePtr(exchange.Compare)
+				k.Fun = exchange
+			}
+			stmt.Kind = k
+		case StmtAtomic:
+			k.Result = cloneHandlePtr(k.Result)
+			if exchange, ok := k.Fun.(AtomicExchange); ok {
+				exchange.Compare = cloneHandlePtr(exchange.Compare)
+				k.Fun = exchange
+			}
+			stmt.Kind = k
+		case StmtSubgroupBallot:
+			k.Predicate = cloneHandlePtr(k.Predicate)
+			stmt.Kind = k
+		}
+		dst[i] = stmt
+	}
+	return dst
+}
+
 // PipelineConstants maps override keys (ID as string or name) to float64 values.
 // NaN means "not set" (use default initializer).
 // Matches Rust naga's back::PipelineConstants = HashMap<String, f64>.
